@@ -743,6 +743,56 @@ def section_history():
                     fail("history", "a value already handed to the caller was modified by a later evaluation", hermitian=hermitian, seed=seed, index=k)
 
 
+def section_history_illposed():
+    """The outcome of a first-order request (value or class of the exception) on a problem whose blocks share an unperturbed energy is the one
+    of a fresh computation, whatever other first-order (and well-posed-parameter) requests came before: a first-order off-diagonal element
+    is defined by the solver from H_0 and the term itself, so no cached zero can make it unnecessary.  4 levels, 2 blocks, 2 parameters,
+    levels 1 and 2 degenerate across the blocks; term x couples only non-degenerate levels, term y couples the degenerate pair."""
+    global cases
+    import itertools
+    import warnings
+    from scipy import sparse as _sps
+    from pymablock import block_diagonalize
+
+    def mk(hermitian, conv):
+        h0 = np.diag([0.0, 1.0, 1.0, 3.0])
+        hx = np.zeros((4, 4))
+        hx[0, 2] = hx[2, 0] = 1
+        hx[1, 3] = hx[3, 1] = 1
+        hy = np.zeros((4, 4))
+        hy[1, 2] = hy[2, 1] = 1
+        with warnings.catch_warnings():
+            warnings.simplefilter("ignore")
+            return block_diagonalize([conv(h0), conv(hx), conv(hy)], subspace_indices=[0, 0, 1, 1], hermitian=hermitian)
+
+    def outcome(out, req):
+        s, idx = req
+        try:
+            with warnings.catch_warnings():
+                warnings.simplefilter("ignore")
+                v = out[s][idx]
+        except Exception as e:  # noqa: BLE001
+            return type(e).__name__, None
+        return "value", (None if (v is zero or v is one) else (v.toarray() if _sps.issparse(v) else np.array(v)))
+
+    first = [(1, (0, 1, 1, 0)), (1, (0, 1, 0, 1)), (2, (1, 0, 0, 1)), (1, (1, 0, 1, 0)), (0, (0, 1, 0, 1))]
+    prelude = [(0, (0, 0, 2, 0)), (0, (1, 1, 2, 0))]
+    for hermitian in (True, False):
+        for cname, conv in (("dense", lambda x: x), ("csr", _sps.csr_array), ("coo", _sps.coo_array)):
+            fresh = {r: outcome(mk(hermitian, conv), r) for r in first}
+            for hist in itertools.chain(itertools.permutations(first, 2), ((p, a, b) for p in prelude for a, b in itertools.permutations(first[:3], 2))):
+                cases += 1
+                out = mk(hermitian, conv)
+                for r in hist[:-1]:
+                    outcome(out, r)
+                got = outcome(out, hist[-1])
+                want = fresh[hist[-1]]
+                same = got[0] == want[0] and ((got[1] is None) == (want[1] is None)) and (got[1] is None or np.allclose(got[1], want[1], atol=1e-9))
+                if not same:
+                    fail("history_illposed", "the outcome of a first-order request differs from the one of a fresh computation", hermitian=hermitian, storage=cname,
+                         history=[list(map(int, (s, *i))) for s, i in hist[:-1]], request=list(map(int, (hist[-1][0], *hist[-1][1]))), fresh=want[0], got=got[0])
+
+
 def section_herm_flag_finding():
     """Witness of known finding F-H: a Hermitian product of factors that are not adjoints of each other."""
     global cases
